@@ -3,12 +3,15 @@ from ..core import Case, hx, unhx
 from .. import gen
 from ..gen import Opt, schema_lines, LIST, MULTI, TITLE, NOCASE, NO_TITLE_DUPES
 
-THEOREMS = ["C11_title_roundtrip", "C11_plain_title", "C11_single_level", "C11_empty_path", "C11_unresolved_changes_nothing", "parseQuoted_esc"]
+THEOREMS = ["C11_title_roundtrip", "C11_plain_title", "C11_single_level", "C11_empty_path", "C11_unresolved_changes_nothing", "parseQuoted_esc", "C11_resolve", "secidx_walk", "pathQual_render", "instOf_index", "strtol_decDigits"]
 PARTIAL = ("Proved: the title quoting of the path language ('...' with \\' and \\\\) reads back every byte string and reports its exact length "
-           "(C11_title_roundtrip, by induction on the title); an unquoted title/index runs to the next '|'; a one-step path resolves exactly like the "
-           "single-level accessor; the empty path resolves to nothing; every by-path setter/remover whose path does not resolve returns the "
-           "configuration unchanged. Not yet proved: the multi-step theorem getoptPath (showPath steps) = walk steps for arbitrary step lists "
-           "(C11_resolve of DESIGN.md) - covered by the tie and by an independent Python walk over the implementation's own dump.")
+           "(C11_title_roundtrip); an unquoted title/index runs to the next '|'; and the full statement C11_resolve: for EVERY path - any number of "
+           "steps, each a section name with no qualifier, a plain qualifier (index or simple title) or a quoted title of arbitrary bytes, then an option "
+           "name - the resolver returns exactly what navigating one level at a time with the single-level accessors returns (same option of the same "
+           "section instance, or nothing); on an untitled multi section a decimal qualifier selects that instance number (instOf_index); the empty path "
+           "resolves to nothing; every by-path setter/remover whose path does not resolve returns the configuration unchanged. Outside the theorem: "
+           "paths with duplicated / leading / trailing separators and names containing '=' (generated and compared by the tie, and checked by an "
+           "independent Python walk over the implementation's own dump).")
 VARIANT = "asan"
 RULE = ("random trees (random + hand-built schemas, parsed grammar-derived texts); for every reachable option and section a path in "
         "every qualifier form (none, =index, =title, ='quoted title'), and systematically broken variants (dropped / duplicated / "
